@@ -691,6 +691,7 @@ func (x *Exec) runLoop(ls *loopSpec, st *State) flow {
 	}
 	if fr.top {
 		x.vacuity(fmt.Sprintf("vacuity:loop%d.head", ls.ord), ls.node.Pos(), "loop invariants are satisfiable together with the path")
+		x.obls[len(x.obls)-1].PrePC = append([]string(nil), pre.pc...)
 	}
 	headSnap := h.clone()
 	sT, sF := ls.head(h)
@@ -762,6 +763,15 @@ func (x *Exec) runLoop(ls *loopSpec, st *State) flow {
 		}
 	}
 	out.next = x.mergeAll(exits)
+	if out.next != nil && fr.top {
+		// "loop N: after E": intermediate assertion at the loop exit (proved, then assumed)
+		x.st = out.next
+		for k, cl := range x.loopClauses(ls.ord, "after") {
+			g := x.spec(x.specEnvAt(bodyPos), x.parseClause(cl))
+			x.addObl("after", fmt.Sprintf("after%d#%d", ls.ord, k), ls.node.Pos(), g, cl.Text, cl.Props, "")
+			x.st.assume(g)
+		}
+	}
 	return out
 }
 
